@@ -174,9 +174,12 @@ def build(n=4, tier="quick"):
     ents = []
     kinds_other = ["F", "S", "B", "i1", "f1"] if tier == "quick" else ["F", "S", "B", "i1", "i2", "f1", "f2", "f3"]
     for nm, f in OPS:
-        for R in kinds_other:
+        kinds_nm = list(kinds_other)
+        if tier == "quick" and nm in ("mul", "truediv", "floordiv", "mod"):
+            kinds_nm += ["i2", "f2"]             # negative constants: rounding direction and the sign of the remainder
+        for R in kinds_nm:
             ents.append(binop_entry(nm, f, "F", R))
-        for L in kinds_other:
+        for L in kinds_nm:
             if L != "F":
                 ents.append(binop_entry(nm, f, L, "F"))
     ents += unary_entries()
